@@ -6,6 +6,7 @@ MODULES = [
     "contracts.py_repro",
     "contracts.py_lexer",
     "contracts.py_types",
+    "contracts.py_typed",
     "contracts.py_tracker",
     "contracts.lem_call",
     "contracts.lem_time",
